@@ -14,9 +14,11 @@ package c04
 import (
 	"encoding/json"
 	"fmt"
+	"sync/atomic"
 	"testing"
 	"time"
 
+	"github.com/rminnich/go9p"
 	"pgregory.net/rapid"
 	"verif/internal/hx"
 	"verif/internal/rawc"
@@ -38,6 +40,10 @@ type OCase struct {
 	Cancel   bool     `json:"cancel,omitempty"` // the parked request is cancelled by a Tflush (the implementation's FlushOp calls SrvReq.Flush) and answers late
 	Drop     bool     `json:"drop,omitempty"`   // the client disconnects while the request is parked; it is released afterwards
 	Probes   []string `json:"probes"`
+	// scenario "multi" (multi_test.go): several requests parked at once
+	Idle   []OIdle `json:"idle,omitempty"`
+	Parked []OPark `json:"parked,omitempty"`
+	Order  []int   `json:"order,omitempty"` // the order in which the parked requests are released
 }
 
 const (
@@ -52,7 +58,45 @@ type ohang struct{ msg string }
 
 func (h *ohang) Error() string { return h.msg }
 
+// quies follows, through go9p's verif hook, whether the framework is done with
+// one connection: close() has returned and every request it dispatched has
+// been through Respond's post-processing. It is used for one thing only: to
+// give the verdict "this fid object was never destroyed" (an absence) without
+// sitting out the whole deadline when nothing is left that could still report
+// it. It never turns a passing case into a failing one earlier than that.
+type quies struct {
+	conn               *go9p.Conn
+	dispatched, posted atomic.Int64
+	closeExit          atomic.Bool
+}
+
+func (q *quies) hook(point string, obj interface{}) {
+	switch point {
+	case "close.exit":
+		if c, ok := obj.(*go9p.Conn); ok && c == q.conn {
+			q.closeExit.Store(true)
+		}
+	case "recv.dispatch":
+		if r, ok := obj.(*go9p.SrvReq); ok && r.Conn == q.conn {
+			q.dispatched.Add(1)
+		}
+	case "respond.posted":
+		if r, ok := obj.(*go9p.SrvReq); ok && r.Conn == q.conn {
+			q.posted.Add(1)
+		}
+	}
+}
+
+func (q *quies) quiet() bool {
+	return q != nil && q.closeExit.Load() && q.posted.Load() >= q.dispatched.Load()
+}
+
+// leakGrace: how long after the framework is done with the connection a
+// missing FidDestroy is still waited for.
+const leakGrace = 500 * time.Millisecond
+
 type orun struct {
+	q    *quies
 	c    *OCase
 	sv   *script.Server
 	cl   *rawc.C
@@ -249,6 +293,12 @@ func runOverlap(c *OCase) error {
 	defer cl.Close()
 	defer sv.S.ReleaseAll()
 	o := &orun{c: c, sv: sv, cl: cl, S: sv.S, conn: script.ConnID(name)}
+	if gc := sv.S.Conn(o.conn); gc != nil {
+		o.q = &quies{conn: gc}
+		hook := o.q.hook
+		go9p.VerifHook.Store(&hook)
+		defer go9p.VerifHook.Store(nil)
+	}
 	ver := "9P2000"
 	if c.Dotu {
 		ver = "9P2000.u"
@@ -265,6 +315,8 @@ func runOverlap(c *OCase) error {
 		err = o.pending()
 	case "held":
 		err = o.held()
+	case "multi":
+		err = o.multi()
 	default:
 		return fmt.Errorf("harness: scenario %q", c.Scenario)
 	}
@@ -529,7 +581,11 @@ func (o *orun) finish() error {
 	o.cl.Close()
 	shown := map[int]bool{}
 	start := time.Now()
+	var quietSince time.Time
 	for {
+		// read before the log: what the log shows below is then at least as
+		// recent as the moment the framework was found done with the connection
+		quiet := o.q.quiet()
 		closed := false
 		destroyed := map[int]int{}
 		for _, e := range o.S.Log() {
@@ -560,6 +616,16 @@ func (o *orun) finish() error {
 		if closed && bad == "" {
 			return nil
 		}
+		if closed && quiet && bad != "" {
+			// close() has returned and every request has been answered: go9p calls
+			// FidDestroy synchronously from those, so nothing is left that could
+			// still report the destruction
+			if quietSince.IsZero() {
+				quietSince = time.Now()
+			} else if time.Since(quietSince) > leakGrace {
+				return fmt.Errorf("after the connection was closed (and every request answered): %s", bad)
+			}
+		}
 		if time.Since(start) > odeadline {
 			if !closed {
 				return &ohang{"ConnClosed not reported after the client closed the connection"}
@@ -575,7 +641,11 @@ func executeOverlap(test string, c *OCase) error {
 	hx.Eval()
 	b, _ := json.Marshal(c)
 	hx.NonTrivial(b) // every case overlaps a request with the (in)validation of its fid
-	hx.Label("overlap " + c.Scenario + " " + c.Binder + c.Holder + "/" + c.Inval)
+	if c.Scenario == "multi" {
+		labelMulti(c)
+	} else {
+		hx.Label("overlap " + c.Scenario + " " + c.Binder + c.Holder + "/" + c.Inval)
+	}
 	if c.Cancel {
 		hx.Label("overlap: parked request cancelled by Tflush")
 	}
@@ -624,6 +694,15 @@ func TestPropOverlap(t *testing.T) {
 		c := genOverlap(t)
 		if err := executeOverlap("overlap", c); err != nil {
 			hx.Failf(t, "overlap", c, "%v", err)
+		}
+	})
+}
+
+func TestPropOverlapMulti(t *testing.T) {
+	hx.Check(t, "overlapmulti", hx.N(250, 2500), func(t *rapid.T) {
+		c := genMulti(t)
+		if err := executeOverlap("overlapmulti", c); err != nil {
+			hx.Failf(t, "overlapmulti", c, "%v", err)
 		}
 	})
 }
@@ -685,7 +764,28 @@ func TestEnumOverlap(t *testing.T) {
 			}
 		}
 	}
+	// several binders of one kind parked, one idle fid whose FidDestroy dwells, both endings
+	for _, dotu := range []bool{false, true} {
+		for _, drop := range []bool{false, true} {
+			for _, b := range []string{"attach", "clone", "walk", "auth"} {
+				for _, n := range []int{1, 3, 5} {
+					for _, rev := range []bool{false, true} {
+						c := &OCase{Dotu: dotu, Auth: b == "auth", Scenario: "multi", Drop: drop, Idle: []OIdle{{Dwell: true}, {File: true}}}
+						for j := 0; j < n; j++ {
+							c.Parked = append(c.Parked, OPark{Kind: b, Src: -1})
+							if rev {
+								c.Order = append(c.Order, n-1-j)
+							} else {
+								c.Order = append(c.Order, j)
+							}
+						}
+						try(c)
+					}
+				}
+			}
+		}
+	}
 	if hx.Thorough() {
-		hx.Exhaustive("overlap: every binder {attach, auth, clone, walk} parked x every single probe on the pending fid; every parked holder {read, write, wstat, open, walk, create} x {Tclunk, Tremove} x {success, implementation error} x rebind on/off x every single probe; both dialects, AuthOps on/off")
+		hx.Exhaustive("overlap: every binder {attach, auth, clone, walk} parked x every single probe on the pending fid; every parked holder {read, write, wstat, open, walk, create} x {Tclunk, Tremove} x {success, implementation error} x rebind on/off x every single probe; both dialects, AuthOps on/off; 1/3/5 binders of one kind parked at once next to an idle fid with a dwelling FidDestroy, released in order / in reverse, ending in a disconnect or in replies")
 	}
 }
